@@ -1,7 +1,37 @@
-import Driver.Proto
+import Driver.BusUtil
 namespace Driver
+open GbVerif
 
-/-- C12 correspondence (stub) -/
-def checkC12 (l : Line) : Verdict := .bad s!"stream {l.stream} not implemented"
+/-- C12: the visible ROM/RAM banks after every write of a sequence -/
+def checkC12 (l : Line) : Verdict := Id.run do
+  let ws := parsePairs (l.inS "ws")
+  let banks := l.inN "banks"; let ramb := l.inN "ramb"
+  let ctl := ctlOf (l.inN "type")
+  let rb := parseNatList (l.outS "rb"); let mb := parseNatList (l.outS "mb")
+  let r0 := parseNatList (l.outS "r0"); let r4 := parseNatList (l.outS "r4"); let ra := parseNatList (l.outS "ra")
+  if rb.length != ws.length then return .bad "length mismatch"
+  let mut cart := Cart.init (kindOf (l.inN "type")) banks (ramb / 0x2000)
+  let mut regs : CartSpec.Regs := {}
+  let mut i := 0
+  let mut nontrivial := false
+  for (a, v) in ws do
+    cart := Cart.writeRom cart a v
+    regs := CartSpec.applyWrite ctl regs a v
+    let sRom := CartSpec.romBank ctl banks regs
+    let sRam := CartSpec.ramBank ctl (ramb / 0x2000) regs
+    let iRom := rb.getD i 0; let iRam := mb.getD i 0
+    -- spec: what the guest sees through the bus
+    let seen4 := r4.getD i 0; let seen0 := r0.getD i 0; let seenA := ra.getD i 0
+    if seen0 != romByte 0 then return .specDiff s!"write {i}: byte at 0x0000 is {seen0}, bank 0 holds {romByte 0}"
+    if seen4 != romByte (sRom * 0x4000) then
+      return .specDiff s!"write {i} ({a}:{v}): byte at 0x4000 is {seen4}, protocol bank {sRom} holds {romByte (sRom * 0x4000)} (impl bank {iRom})"
+    let expA := if ramb == 0 then 0xff else if ramb < 0x2000 then 1 else sRam + 1
+    if seenA != expA then
+      return .specDiff s!"write {i} ({a}:{v}): byte at 0xA000 is {seenA}, protocol RAM bank {sRam} is tagged {expA} (impl bank {iRam})"
+    if Cart.getRomBank cart != iRom then return .modelDiff s!"write {i}: rom bank model={Cart.getRomBank cart} impl={iRom}"
+    if Cart.getRamBank cart != iRam then return .modelDiff s!"write {i}: ram bank model={Cart.getRamBank cart} impl={iRam}"
+    if sRom != 1 || sRam != 0 then nontrivial := true
+    i := i + 1
+  return .ok nontrivial
 
 end Driver
